@@ -244,7 +244,7 @@ func init() {
 		if tier == "thorough" {
 			n = c09cells + 1500
 		}
-		return Plan{Runs: n, Enumerated: c09cells, Exhaustive: true, Level: "fault_enumeration", Rule: "runs 0..131 enumerate (fault kind in {db closed, read error, corrupted block, table file missing from the database directory, undecodable value, truncated value, store missing after failed swap, shutdown racing the lookup, value of wrong type, value altered inside the serial but still decodable, value of length zero}) x (listed, unlisted) x (backend) x (store level, repository level, validator level) completely (cells that do not exist for a backend are counted as skipped); further runs draw the same with random population sizes, tiny write buffers and schedules; oracle: under a fault that affects the lookup the answer is an error or 'revoked', never (not revoked, nil), and never a panic; the same lookups without the fault are exact"}
+		return Plan{Runs: n, Enumerated: c09cells, Exhaustive: true, Level: "fault_enumeration", Rule: "runs 0..143 enumerate (fault kind in {db closed, read error, corrupted block, table file missing from the database directory, manifest and every table file damaged before a reopen, undecodable value, truncated value, store missing after failed swap, shutdown racing the lookup, value of wrong type, value altered inside the serial but still decodable, value of length zero}) x (listed, unlisted) x (backend) x (store level, repository level, validator level) completely (cells that do not exist for a backend are counted as skipped); further runs draw the same with random population sizes, tiny write buffers and schedules; oracle: under a fault that affects the lookup the answer is an error or 'revoked', never (not revoked, nil), and never a panic; the same lookups without the fault are exact"}
 	}, Run: runC09})
 }
 
@@ -585,9 +585,9 @@ func recordOnly(h *Harness, oracle, sig, detail string) {
 
 // ------------------------------------------------------------------------------------------ C09
 
-var c09faults = []string{"db-closed", "read-error", "corrupt-block", "undecodable-value", "truncated-value", "store-missing-after-failed-swap", "shutdown-race", "wrong-type-value", "altered-value", "empty-value", "table-file-missing"}
+var c09faults = []string{"db-closed", "read-error", "corrupt-block", "undecodable-value", "truncated-value", "store-missing-after-failed-swap", "shutdown-race", "wrong-type-value", "altered-value", "empty-value", "table-file-missing", "manifest-and-tables-damaged"}
 
-const c09cells = 11 * 2 * 2 * 3
+const c09cells = 12 * 2 * 2 * 3
 
 var c09levels = []string{"store", "repository", "validator"}
 
@@ -628,6 +628,9 @@ func runC09(h *Harness) {
 	if fault == "store-missing-after-failed-swap" && level == "store" {
 		applicable = false
 	}
+	if fault == "manifest-and-tables-damaged" && (level != "store" || backend != "disk") {
+		applicable = false // a database that cannot be opened is the strict gate's business above the store (C10/C12)
+	}
 	if fault == "altered-value" && !listed {
 		applicable = false // there is no record of an unlisted certificate that could be altered
 	}
@@ -665,6 +668,9 @@ func runC09(h *Harness) {
 			if backend == "disk" {
 				st = crlstore.LevelDB
 			}
+			if fault == "manifest-and-tables-damaged" {
+				h.Disk.SmallWB = true // many small table files, as a large list has
+			}
 			f, _ := crlstore.CreateStoreFactory(st, n.WorkDir, zap.NewNop())
 			s, err := f.CreateStore("store1", false)
 			if err != nil {
@@ -675,6 +681,11 @@ func runC09(h *Harness) {
 				for _, e := range loc.Versions[0].Entries {
 					s.InsertRevokedCert(&crlreader.CRLEntry{Issuer: issuerRDN, RevokedCertificate: &pkix.RevokedCertificate{SerialNumber: e.Serial, RevocationTime: e.Date}})
 				}
+				if fault == "manifest-and-tables-damaged" {
+					for i := 0; i < 3000; i++ {
+						s.InsertRevokedCert(&crlreader.CRLEntry{Issuer: issuerRDN, RevokedCertificate: &pkix.RevokedCertificate{SerialNumber: big.NewInt(int64(0x7000000 + i)), RevocationTime: epoch}})
+					}
+				}
 			}
 			populate(s)
 			// fault-free answers first (guards against an always-error implementation)
@@ -682,6 +693,41 @@ func runC09(h *Harness) {
 			if err0 != nil || st0.Revoked != listed {
 				h.Violation("C09.clean-lookup", "clean-lookup-wrong", "fault-free lookup: revoked=%v err=%v, expected revoked=%v", st0 != nil && st0.Revoked, err0, listed)
 				return
+			}
+			if fault == "manifest-and-tables-damaged" {
+				// the database is closed, every table file loses its second half and the manifest is damaged too (a
+				// disk that filled up, a copy that was cut short); then the store is opened again the way the
+				// repository opens it. It may refuse to open; if it opens, what it answers must not be "not revoked".
+				ld := s.(*crlstore.LevelDbStore)
+				ld.Db.Close()
+				if s2, e := f.CreateStore(ld.Identifier, false); e == nil {
+					s2.(*crlstore.LevelDbStore).Db.Close() // (journal replayed into table files)
+				}
+				ents, _ := os.ReadDir(ld.LevelDBPath)
+				cut := 0
+				for _, e := range ents {
+					p := filepath.Join(ld.LevelDBPath, e.Name())
+					b, _ := os.ReadFile(p)
+					switch {
+					case strings.HasSuffix(e.Name(), ".ldb") && len(b) > 8:
+						os.WriteFile(p, b[:len(b)/2], 0600)
+						cut++
+					case strings.HasPrefix(e.Name(), "MANIFEST-") && len(b) > 8:
+						for i := len(b) / 3; i < len(b)/3+6 && i < len(b); i++ {
+							b[i] ^= 0x5a
+						}
+						os.WriteFile(p, b, 0600)
+					}
+				}
+				sc["tables_cut"] = cut
+				s3, e := f.CreateStore(ld.Identifier, false)
+				if e != nil {
+					sc["answer"] = "store does not open: " + e.Error()
+					h.Probe("damaged-database-refused")
+					return
+				}
+				h.Probe("damaged-database-opened")
+				s = s3
 			}
 			c09injectStore(h, s, f, backend, fault, key, listed)
 			var rv bool
